@@ -435,7 +435,9 @@ class IterNode(tp.Generic[FrameOrSeries]):
         apply_constructor: tp.Callable[..., tp.Union[Frame, Series]]
 
         if self._apply_type is IterNodeApplyType.SERIES_ITEMS:
-            if isinstance(self._container, Frame) and kwargs['axis'] == 0:
+            # windows along axis 0 are labelled by the index, and along axis 1 by the columns; iteration over an axis is the opposite
+            axis_columns = 1 if isinstance(self, IterNodeWindow) else 0
+            if isinstance(self._container, Frame) and kwargs['axis'] == axis_columns:
                 columns = self._container._columns
                 # the labels of a Series are static: a grow-only columns index gives its immutable class
                 columns_cls = columns.__class__ if columns.STATIC else columns._IMMUTABLE_CONSTRUCTOR
